@@ -1,0 +1,55 @@
+// see include/nix/verif_hooks.hpp
+
+#include <nix/verif_hooks.hpp>
+
+#ifdef NIX_VERIF_HOOKS
+
+#include <cstring>
+#include <climits>
+
+namespace nix {
+namespace verif {
+
+static sink_t the_sink = nullptr;
+
+void setSink(sink_t sink) {
+    the_sink = sink;
+}
+
+bool armed() {
+    return the_sink != nullptr;
+}
+
+void emit(const char *kind, const std::string &detail) {
+    if (the_sink != nullptr) {
+        the_sink(kind, detail);
+    }
+}
+
+int canary(int kind) {
+    volatile int n = 8;
+    if (kind == 1) {
+        char *buf = new char[n];
+        volatile char *p = buf;
+        p[n] = 1; // one past the end
+        int r = p[0];
+        delete[] buf;
+        return r;
+    } else if (kind == 2) {
+        volatile int big = INT_MAX;
+        int r = big + n; // signed overflow
+        return r;
+    } else if (kind == 3) {
+        char dst[4] = {0, 0, 0, 0};
+        const char * volatile src = nullptr;
+        volatile size_t len = 0;
+        std::memcpy(dst, src, len); // null source
+        return dst[0];
+    }
+    return 0;
+}
+
+} // namespace verif
+} // namespace nix
+
+#endif // NIX_VERIF_HOOKS
